@@ -26,6 +26,10 @@ func runC14(c *Check, tier string) {
 	ruleWrapperStatus(c, "R14j")
 	// a declared expected_output of the wrong type is an error, not a check that compares nothing
 	ruleStarlarkFieldTypeErrors(c, "R14k")
+	// the outputs that are checked after the command are the declared ones
+	ruleModelSlicesNotWrittenThrough(c, "R14l")
+	// a declared timeout reaches the target whatever the file format
+	shareRule(c, "R14m", "every field of the annotation struct a loader unmarshals is carried into the target it builds (same obligations as R16c): a timeout that the loader drops is never enforced", 10, "R16c", func(sub *Check) { ruleR16c(sub) }, nil)
 	shareRule(c, "R14i", "a non-nil execution error or any failed completion ends in a non-zero exit (same obligations as R05d)", 3, "R05d", func(sub *Check) { ruleR05d(sub, "R05d") }, nil)
 	// a timeout is a failure: the walker records every error but plain cancellation
 	if w := findWalker(c, "R14g"); w != nil {
